@@ -5,7 +5,7 @@ from c04 import group_sort
 import random, itertools
 
 ALLOPS = ['=', '+=', '-=', '*=', '/=']
-INT_T = {'i32': ('int', 'i32'), 'i64': ('long long', 'i64'), 'u64': ('size_t', 'i64')}
+INT_T = {'i32': ('int', 'i32'), 'i64': ('int64_t', 'i64'), 'u64': ('size_t', 'i64')}
 
 
 def it_region(name, ity, dims, values):
@@ -51,7 +51,7 @@ def result_dims(form, it_dims, jt_dims, extra):
     return [it_dims[0], n] if form == 'it_fseq' else [n, it_dims[0]]
 
 
-def mk_index(t, dims, form, ity, it, jt=None, extra=None, mode='read', op='=', rhs='tensor', it_dims=None, noalias_src=None):
+def mk_index(t, dims, form, ity, it, jt=None, extra=None, mode='read', op='=', rhs='tensor', it_dims=None, noalias_src=None, nonconst=False):
     extra = extra or {}
     ct = CTYPE[t]
     it_dims = it_dims or [len(it)]
@@ -67,7 +67,10 @@ def mk_index(t, dims, form, ity, it, jt=None, extra=None, mode='read', op='=', r
     pr = {'type': t, 'dims': list(dims), 'form': form, 'int': ity, 'it': list(it), 'jt': list(jt) if jt is not None else None, 'mode': mode, 'op': op, 'rhs': rhs, **{k: list(v) if isinstance(v, tuple) else v for k, v in extra.items()}}
     wid = 'ix_%s_%s_%s_%s_%s_%s%s' % (mode, form, t, ity, 'x'.join(map(str, dims)), '-'.join(map(str, it)), ('_' + '-'.join(map(str, jt))) if jt is not None else '')
     if mode == 'read':
-        wit = 'extern "C" void @W@(const %s& a, %s, %s& r){ r = %s; }' % (tensor_t(t, dims), params, tensor_t(t, rd), call)
+        # every view-producing overload has a const and a non-const twin: both are read through (the non-const parent must not be stored to)
+        wit = 'extern "C" void @W@(%s%s& a, %s, %s& r){ r = %s; }' % ('' if nonconst else 'const ', tensor_t(t, dims), params, tensor_t(t, rd), call)
+        if nonconst:
+            wid += '_nc'; pr['parent'] = 'nonconst'
         regions = [treg('a', t, dims)] + regions + [treg('r', t, rd, 'out')]
         return Witness(wid, fam, pr, wit, '', regions, [{'mod': 'wit', 'fn': '@W@', 'args': ['a'] + iargs + ['r']}], [{'kind': 'copy', 'region': 'r', 'ns': 'a', 'map': off}])
     cop = {'=': 'x = y', '+=': 'x = x + y', '-=': 'x = x - y', '*=': 'x = x * y', '/=': 'x = x / y'}[op]
@@ -187,6 +190,39 @@ def witnesses(tier, seed):
             W.append(mk_index(T3[k % 3], [M, N], 'fseq_it', ITS[k % 3], [rng.randrange(N) for _ in range(li)], extra={'fs': (rng.randrange(0, 2), M, rng.randrange(1, 3))}))
             W.append(mk_index(T3[k % 3], [M, N], 'it_int', ITS[k % 3], rng.sample(range(M), min(li, M)), extra={'k': rng.randrange(N)}, mode='write', op=ALLOPS[k % 5], rhs='scalar'))
             W.append(mk_index(T3[k % 3], [M, N], 'it_fseq', ITS[k % 3], rng.sample(range(M), min(li, M)), extra={'fs': (1, N, 2)}, mode='write', op=ALLOPS[k % 5], rhs=['scalar', 'tensor'][k % 2]))
+    # the four mixed overloads, systematically: const and non-const parent reads, writes with every operator,
+    # compile-time ranges with first in {0,1,2} and step in {1,2,3} (first > 0 together with step > 1 included)
+    for (M, N) in [(5, 7)] + ([] if quick else [(4, 9), (7, 5)]):
+        for F in (0, 1, 2):
+            for S in (1, 2, 3):
+                for form in ('it_fseq', 'fseq_it'):
+                    ext = N if form == 'it_fseq' else M        # extent of the ranged axis
+                    oth = M if form == 'it_fseq' else N        # extent of the indexed axis
+                    for Lst in (ext, ext - 1):
+                        k += 1
+                        itv = [rng.randrange(oth) for _ in range(1 + k % 3)]
+                        for nc in (False, True):
+                            W.append(mk_index(T3[k % 3], [M, N], form, ITS[k % 3], itv, extra={'fs': (F, Lst, S)}, nonconst=nc))
+                        W.append(mk_index(T3[k % 3], [M, N], form, ITS[k % 3], rng.sample(range(oth), 1 + k % 3), extra={'fs': (F, Lst, S)}, mode='write', op=ALLOPS[k % 5], rhs=['scalar', 'tensor'][k % 2]))
+        for form in ('it_int', 'int_it'):
+            ext = N if form == 'it_int' else M
+            oth = M if form == 'it_int' else N
+            for kk in range(ext):
+                k += 1
+                itv = [rng.randrange(oth) for _ in range(1 + k % 3)]
+                for nc in (False, True):
+                    W.append(mk_index(T3[k % 3], [M, N], form, ITS[k % 3], itv, extra={'k': kk}, nonconst=nc))
+                W.append(mk_index(T3[k % 3], [M, N], form, ITS[k % 3], rng.sample(range(oth), 1 + k % 3), extra={'k': kk}, mode='write', op=ALLOPS[k % 5], rhs=['scalar', 'tensor'][k % 2]))
+        for _ in range(12 if quick else 40):
+            k += 1
+            it = [rng.randrange(M) for _ in range(rng.randrange(1, 4))]; jt = [rng.randrange(N) for _ in range(rng.randrange(1, 4))]
+            W.append(mk_index(T3[k % 3], [M, N], 'axes', ITS[k % 3], it, jt, nonconst=True))
+    for P in (6, 9):
+        for _ in range(12 if quick else 40):
+            k += 1
+            W.append(mk_index(T3[k % 3], [P], 'flat', ITS[k % 3], [rng.randrange(P) for _ in range(rng.randrange(1, 5))], nonconst=True))
+    k += 1
+    W.append(mk_index('f64', [2, 3, 4], 'nd', 'i32', [rng.randrange(24) for _ in range(8)], it_dims=[2, 2, 2], nonconst=True))
     # boolean masks: symbolic, all 2^n masks at once
     for dims in [[1], [3], [7], [8], [12], [3, 4], [4, 5]] + ([] if quick else [[16], [17], [2, 3, 3], [5, 6]]):
         for op in ALLOPS:
